@@ -452,6 +452,8 @@ void OPN2::touchNote(size_t c,
     case Synth::VOLUME_DMX:
     {
         volume = (channelVolume * channelExpression * m_masterVolume) / 16129;
+        if(volume > 127) // controller values above 127 must not index past the table
+            volume = 127;
         volume = (s_dmx_volume_model[volume] + 1) << 1;
         volume = (s_dmx_volume_model[(velocity < 128) ? velocity : 127] * volume) >> 9;
 
@@ -473,7 +475,10 @@ void OPN2::touchNote(size_t c,
     case Synth::VOLUME_9X:
     {
         //volume = 63 - W9X_volume_mapping_table[(((vol * Ch[MidCh].volume /** Ch[MidCh].expression*/) * 127 / 16129 /*2048383*/) >> 2)];
-        volume = 63 - W9X_volume_mapping_table[((velocity * channelVolume * channelExpression * m_masterVolume / 2048383) >> 2)];
+        volume = ((velocity * channelVolume * channelExpression * m_masterVolume / 2048383) >> 2);
+        if(volume > 31) // controller values above 127 must not index past the table
+            volume = 31;
+        volume = 63 - W9X_volume_mapping_table[volume];
         //volume = W9X_volume_mapping_table[vol >> 2] + volume;
         if(volume > 0)
             volume += 64;//OPN has 0~127 range. As 0...63 is almost full silence, but at 64 to 127 is very closed to OPL3, just add 64.
